@@ -1,0 +1,41 @@
+//go:build verif
+
+package test
+
+import "github.com/icon-project/goloop/module"
+
+// HookPeer is a Peer whose received packets are handed to a callback. It lets
+// a verification harness own all traffic of a NetworkManager (observe every
+// packet at send time and decide delivery itself).
+type HookPeer struct {
+	PeerID   module.PeerID
+	OnPacket func(pk *Packet)
+}
+
+func (p *HookPeer) ID() module.PeerID { return p.PeerID }
+func (p *HookPeer) attach(p2 Peer)    {}
+func (p *HookPeer) detach(p2 Peer)    {}
+func (p *HookPeer) notifyPacket(pk *Packet, cb func(rebroadcast bool, err error)) {
+	p.OnPacket(pk)
+}
+
+// VerifAttach attaches a peer to the network manager (one direction only).
+func (n *NetworkManager) VerifAttach(p Peer) { n.attach(p) }
+
+// VerifDetach detaches a peer from the network manager.
+func (n *NetworkManager) VerifDetach(p Peer) { n.detach(p) }
+
+// VerifInject queues a packet for delivery to the registered reactors as if
+// it had arrived from the network.
+func (n *NetworkManager) VerifInject(pk *Packet) { n.notifyPacket(pk, nil) }
+
+// VerifTryInject is VerifInject that never blocks; it reports false when the
+// receive queue is full.
+func (n *NetworkManager) VerifTryInject(pk *Packet) bool {
+	select {
+	case n.rCh <- packetEntry{pk, nil}:
+		return true
+	default:
+		return false
+	}
+}
